@@ -81,7 +81,7 @@ class Findings:
 
     def __init__(self):
         self.entries = []
-        if os.path.exists(KNOWN_FINDINGS):
+        if os.path.exists(KNOWN_FINDINGS) and not os.environ.get('VERIF_IGNORE_KNOWN'):
             with open(KNOWN_FINDINGS) as f:
                 self.entries = json.load(f).get('findings', [])
 
